@@ -180,6 +180,7 @@ CONFIGS = [
     Cfg("fb-eager", 7, [16, s2.FB_EXPECTED], [b"fb", b"eager"], limit=16),
     Cfg("fb-lazy", 7, [16, s2.FB_EXPECTED], [b"fb", b"lazy"], limit=16),
     Cfg("fb-back1", 7, [16, s2.FB_EXPECTED], [b"fb", b"back1"], limit=16),
+    Cfg("fb-seek1", 7, [16, s2.FB_EXPECTED], [b"fb", b"seek1"], limit=16),
 ]
 BY_NAME = {c.name: c for c in CONFIGS}
 
@@ -328,8 +329,9 @@ def framing_cases(tier, rng, thorough):
             c = Cfg("jsonraw", 2, [limit], [b"jsonraw"], limit=limit)
             for ch in chs[:: (1 if thorough else 4)]:
                 yield _case(c, d, ch, 0, ["framing", "jsonraw-all-modes"])
-    streams = [b"\x02ab\x01c", b"\x03!ab\x01c", b"\x02?b\x01c", b"\x05abc", b"\x00\x00\x01a", b"\x02ab" * 3, b"\x01!\x01a", b"\x04ab"]
-    for variant in (b"eager", b"lazy", b"back1"):
+    streams = [b"\x02ab\x01c", b"\x03!ab\x01c", b"\x02?b\x01c", b"\x05abc", b"\x00\x00\x01a", b"\x02ab" * 3, b"\x01!\x01a", b"\x04ab",
+               b"\x04!abc\x01z"]
+    for variant in (b"eager", b"lazy", b"back1", b"seek1"):
         for stream in streams:
             for limit in ((100, 5, 4, 3) if thorough else (100, 4)):
                 for hint in ((1, 2, 3, 8) if thorough else (rng.choice([1, 2]), rng.choice([3, 8]))):
@@ -509,6 +511,12 @@ def _escape(where, ser_name, exc):
         # the test loader's deliberately UNdeclared error (payload starting with b"?"): a user loader raising a class
         # it did not declare is outside the property (documented behaviour of FileBasedPacketSerializer); these
         # cases exist to exercise the Crash path of the model.
+        raise _Exempt()
+    if ser_name.startswith("fb/seek1") and where == "BufferedStreamDataConsumer.next" and cls == "ValueError" \
+            and "memoryview assignment" in msg:
+        # the test loader that reports an error position far behind what it has read, with a receive buffer smaller
+        # than the remainder: __save_remainder_in_buffer cannot store it (modelled: event [9, 2]).  Not reachable with
+        # a loader that only moves forward (see meta/notes/C06.md); user code outside the property.
         raise _Exempt()
     return f"escape: {where} of {ser_name} raised {type(exc).__name__} (root cause {cls}: {msg})"
 
